@@ -8,6 +8,8 @@ NOTE = ("Trusted: z3 5.1 / cvc5 1.0.3 verdicts; the pyvc executor's encoding of 
         "bs4/lxml/cssutils; floats under the standard error model (binary64, round-to-nearest, no overflow); "
         "the bounded parts are run-time contract evaluation, never counted as proof. See evidence/<id>.json.")
 CLAIMED = {
+ "C02": ("contract-based deductive verification (AST->SMT VCs on the writers' time formatting functions) + bounded run-time contracts with reference parsers",
+         "P: shared hh:mm:ss formatter, WebVTT timestamp, MicroDVD frames, SRT timing lines (2 captions), DFXP p begin/end, SAMI sync decision per call - all for every instant below 24 h, int and SCC-style float times; B: all seven writers on generated caption sets parsed by independent reference parsers", "3 C02"),
  "C01": ("contract-based deductive verification (AST->SMT VCs on the reader time-expression functions) + bounded run-time contracts on whole documents",
          "P: SRT/WebVTT/DFXP (clock, frames, offset, begin+dur)/MicroDVD time functions proved for all inputs of the grammar shapes against exact denotations; B: whole-document reads incl. SAMI over generated documents", "3 C01"),
 }
